@@ -1148,8 +1148,26 @@ def remove_redundant_transpose_reduce_ir(graph: ir.Graph) -> None:
                     )
                     new_axes_val.const_value = ir.tensor(new_axes_arr)
 
-                    # Register as initializer
-                    graph.initializers.add(new_axes_val)
+                    # Materialize through a Constant node: valid in top-level
+                    # graphs and in function bodies (which own no initializers);
+                    # the lift-constants pass turns it into an initializer later.
+                    graph.insert_before(
+                        reducer,
+                        ir.Node(
+                            op_type="Constant",
+                            domain="",
+                            inputs=[],
+                            outputs=[new_axes_val],
+                            name=f"{reducer.name or 'reduce'}_axes_optimized_const",
+                            attributes=[
+                                ir.Attr(
+                                    "value",
+                                    IRAttrType.TENSOR,
+                                    new_axes_val.const_value,
+                                )
+                            ],
+                        ),
+                    )
 
                     reducer.replace_input_with(axes_input_idx, new_axes_val)
                 else:
